@@ -16,8 +16,9 @@ EXTENDS Naturals, Sequences, FiniteSets, TLC, Json
 
 Recvs == {"ref", "mut", "own", "pinref", "pinmut"}
 ArgShapes == {"none", "i64", "cstruct", "ref", "mutref", "slice", "mutslice", "str",
-              "opt", "optnpo", "optptr", "result", "into", "callback", "iter"}
-RetShapes == {"unit", "i64", "cstruct", "slice", "mutslice", "str", "opt", "optnpo", "optptr", "result", "resunit", "resneg"}
+              "opt", "optnpo", "optptr", "optmut", "slice64", "optstruct", "rawptr", "result", "into", "callback", "iter"}
+RetShapes == {"unit", "i64", "cstruct", "slice", "mutslice", "str", "opt", "optnpo", "optptr", "refret", "mutrefret", "optstruct",
+              "result", "resunit", "resneg"}
 
 (* C-side type of each shape (as documented; `as implemented` where the README is silent) *)
 CRecv(r) == CASE r = "ref" -> "&CGlueC" [] r = "mut" -> "&mutCGlueC" [] r = "own" -> "CGlueC"
@@ -29,6 +30,8 @@ CArg(a) ==
     [] a = "opt" -> <<"COption<u64>">> [] a = "optnpo" -> <<"Option<&u64>">>
     \* a raw pointer has no niche: Option<*const T> is not null-pointer-optimised and must be wrapped
     [] a = "optptr" -> <<"COption<*constu8>">>
+    [] a = "optmut" -> <<"Option<&mutu64>">> [] a = "slice64" -> <<"CSliceRef<u64>">>
+    [] a = "optstruct" -> <<"COption<Pt>">> [] a = "rawptr" -> <<"*constu8">>
     [] a = "result" -> <<"CResult<u64,u64>">> [] a = "into" -> <<"u64">>
     [] a = "callback" -> <<"OpaqueCallback<u64>">> [] OTHER -> <<"CIterator<u64>">>
 (* return type and trailing output parameter *)
@@ -39,6 +42,8 @@ CRet(t, ir) ==
     [] t = "str" -> [ret |-> "CSliceRef<u8>", out |-> <<>>]
     [] t = "opt" -> [ret |-> "COption<u64>", out |-> <<>>] [] t = "optnpo" -> [ret |-> "Option<&u64>", out |-> <<>>]
     [] t = "optptr" -> [ret |-> "COption<*constu8>", out |-> <<>>]
+    [] t = "refret" -> [ret |-> "&u64", out |-> <<>>] [] t = "mutrefret" -> [ret |-> "&mutu64", out |-> <<>>]
+    [] t = "optstruct" -> [ret |-> "COption<Pt>", out |-> <<>>]
     [] t = "result" -> IF ir THEN [ret |-> "i32", out |-> <<"&mutMaybeUninit<u64>">>] ELSE [ret |-> "CResult<u64,()>", out |-> <<>>]
     [] t = "resunit" -> IF ir THEN [ret |-> "i32", out |-> <<>>] ELSE [ret |-> "CResult<(),()>", out |-> <<>>]
     \* a user error type whose integer codes are negative (errno style)
@@ -46,16 +51,17 @@ CRet(t, ir) ==
 
 (* C-representable by the compiler's rules: every type the model predicts is one of these *)
 FfiSafeTypes == {"i64", "i32", "()", "Pt", "&u64", "&mutu64", "CSliceRef<u8>", "CSliceMut<u8>", "COption<u64>", "COption<*constu8>",
+                 "Option<&mutu64>", "CSliceRef<u64>", "COption<Pt>", "*constu8",
                  "Option<&u64>", "CResult<u64,u64>", "CResult<u64,()>", "CResult<(),()>", "CResult<u64,NegErr>", "u64",
                  "OpaqueCallback<u64>", "CIterator<u64>", "&mutMaybeUninit<u64>",
                  "&CGlueC", "&mutCGlueC", "CGlueC", "Pin<&CGlueC>", "Pin<&mutCGlueC>"}
 
-Borrowing(t) == t \in {"slice", "str", "optnpo", "mutslice"}
+Borrowing(t) == t \in {"slice", "str", "optnpo", "mutslice", "refret", "mutrefret"}
 (* argument shapes that carry an (elided) lifetime of their own *)
-ArgBorrows(a) == a \in {"ref", "mutref", "slice", "mutslice", "str", "optnpo", "callback", "iter"}
+ArgBorrows(a) == a \in {"ref", "mutref", "slice", "mutslice", "str", "optnpo", "optmut", "slice64", "callback", "iter"}
 Supported(r, a, t) ==
   /\ (Borrowing(t) => r # "own")               \* nothing to borrow from a consumed receiver
-  /\ (t = "mutslice" => r \in {"mut", "pinmut"})
+  /\ (t \in {"mutslice", "mutrefret"} => r \in {"mut", "pinmut"})
   \* as implemented: the generated extern "C" wrapper has no `self`, so a borrowed return next to a
   \* borrowed argument needs explicit lifetimes in the trait (elision is ambiguous): outside the grammar
   /\ (Borrowing(t) => ~ArgBorrows(a))
